@@ -251,6 +251,9 @@ func (c *Ctx) Violation(signature, what string, witness any) bool {
 		}
 		if sigMatch(f.Signature, signature) {
 			c.knownHit[f.ID]++
+			if os.Getenv("VERIF_PRINT_KNOWN_SIGS") != "" { // development aid: which signatures a known finding absorbs
+				fmt.Printf("KNOWN-SIG id=%s sig=%s\n", f.ID, signature)
+			}
 			if c.knownHit[f.ID] == 1 {
 				fmt.Printf("KNOWN-FINDING: property=%s %s [%s]\n", c.Prop, f.WhatFails, f.ID)
 			}
